@@ -1476,10 +1476,25 @@ impl<'a, SE: extensions::ShellExtensions> WordExpander<'a, SE> {
                             .into())
                         }
                         ShellValue::String(_) => {
-                            Ok(std::format!("{name}={assignable_value_str}").into())
+                            // A plain variable is recreated by an assignment; one with
+                            // attributes needs the declaration that sets them.
+                            if attr_str == "-" {
+                                Ok(std::format!("{name}={assignable_value_str}").into())
+                            } else {
+                                Ok(std::format!(
+                                    "declare -{attr_str} {name}={assignable_value_str}"
+                                )
+                                .into())
+                            }
                         }
                         ShellValue::Unset(_) => {
-                            Ok(std::format!("declare -{attr_str} {name}").into())
+                            // Declared without a value and without attributes: nothing to
+                            // recreate.
+                            if attr_str == "-" {
+                                Ok(String::new().into())
+                            } else {
+                                Ok(std::format!("declare -{attr_str} {name}").into())
+                            }
                         }
                     }
                 } else {
